@@ -492,7 +492,7 @@ func main() {
 
 	// 2. sampled part
 	fs := codecs.All()
-	nSer := run.Pick(5000, 120000)
+	nSer := run.Pick(5000, 500000)
 	const shards = 16
 	run.Parallel(len(fs)*shards, func(_, i int) {
 		f := fs[i/shards]
